@@ -70,7 +70,7 @@ ASSUMPTIONS = {
     "C03": [
         "signals carry unique ids (rt_tgsigqueueinfo + si_value); standard signals are sent at most once per (thread, signal number) at a time so coalescing cannot hide a loss",
         "job-control stop signals (SIGTSTP/SIGTTIN/SIGTTOU) are excluded: the kernel discards pending stop signals whenever SIGCONT is generated",
-        "interleavings are placed at hook points and by a concurrent sender; kernel-internal orderings (e.g. a realtime signal dequeued between ptrace_attach's flag and its SIGSTOP) are not forced",
+        "interleavings are placed at hook points and by a concurrent sender; kernel-internal orderings (e.g. a realtime signal dequeued between ptrace_attach's flag and its SIGSTOP) cannot be forced, only made likely: the racy placements are repeated under CPU contention (more busy threads than cores)",
         "progress is decided on heartbeat counters / TracerPid / State with a 20 s watchdog whose firing is inconclusive unless a thread is in a stop state",
     ],
     "C08": [
